@@ -23,7 +23,12 @@ EXPECT = {"bad_carry": "violation", "good_carry": "inside", "bad_fill": "violati
 
 def _verdicts(A):
     return {k: ("violation" if "violation" in vs else "undecided" if "undecided" in vs else "inside")
-            for k, vs in A.acc.items()}
+            for k, vs in A.acc.items() if k[0] != "#definite"}
+
+
+def _definite(A):
+    """sites where some path state overruns with its lower bounds alone (every execution reaching it does)"""
+    return {k[1:] for k in A.acc if k[0] == "#definite"}
 
 
 def struct_pointers(f, stt, prog, skip=()):
@@ -41,11 +46,34 @@ def struct_pointers(f, stt, prog, skip=()):
     return out
 
 
+DOC_EXT = {}
+
+
+def doc_extents(f, types):
+    """{parameter id: (name, extent in elements as a linear form over parameter ids, octets per element)} from the header"""
+    d = DOC_EXT.get(f.name)
+    if not d or f.static:
+        return {}
+    ids = {p["n"]: p["id"] for p in f.params}
+    out = {}
+    for p in f.params:
+        l = d.get(p["n"])
+        if l is None or not p.get("p") or any(k and k not in ids for k in l):
+            continue
+        t = types.canon(p.get("t") or "")
+        pt = types.pointee(t) or ""
+        esz = 1 if pt in ("void", "") else types.sizeof(pt)
+        if not esz:
+            continue
+        out[p["id"]] = (p["n"], ({ids[k]: c for k, c in l.items() if k}, l.get("", 0)), esz)
+    return out
+
+
 def analyse(f, types, state_ids=None, inv=None, post=None, inv_hard=None, post_hard=None, other=None, rec=None):
     """{(line, text): (verdict, detail)} for one function.  inv / post: the invariant of the state fields proved for
     the family, assumed at entry and after calls into the family (inv_hard: the same, inferred without type ranges,
     for the runs a report may rest on)."""
-    kw = dict(state_ids=state_ids, other_ptrs=other, state_rec=rec)
+    kw = dict(state_ids=state_ids, other_ptrs=other, state_rec=rec, sym_ext=doc_extents(f, types))
     fs_, fh_ = (inv or {}).get("#facts", ()), (inv_hard or {}).get("#facts", ())
     inv = {k: v for k, v in (inv or {}).items() if k != "#facts"}
     inv_hard = {k: v for k, v in (inv_hard or {}).items() if k != "#facts"}
@@ -58,11 +86,12 @@ def analyse(f, types, state_ids=None, inv=None, post=None, inv_hard=None, post_h
     KH = fx.FxAnalyzer(f, types, soft=False, entry_fields=inv_hard, callee_post=post_hard, entry_facts=fh_, **kw).run_classic()
     KS = fx.FxAnalyzer(f, types, soft=True, entry_fields=inv, callee_post=post, entry_facts=fs_, **kw).run_classic()
     dh, kh, ks = _verdicts(DH), _verdicts(KH), _verdicts(KS)
+    dfn = _definite(DH)
     for k in ds:
         if ds[k] == "inside" or ks.get(k) == "inside":
             out[k] = ("inside", None)
-        elif dh.get(k) == "violation" and kh.get(k) == "violation":
-            out[k] = ("violation", KH.detail.get(k) or DH.detail.get(k))
+        elif dh.get(k) == "violation" and (kh.get(k) == "violation" or k in dfn):
+            out[k] = ("violation", (KH.detail.get(k) if kh.get(k) == "violation" else None) or DH.detail.get(k))
         else:
             out[k] = ("undecided", DS.detail.get(k))
     return out, (DS.truncated or DH.truncated or KH.truncated or KS.truncated)
@@ -209,6 +238,9 @@ def selftest(config):
 
 def check_fixed_extent(res, config, floor):
     n_self = selftest(config)
+    from . import docext
+    global DOC_EXT
+    DOC_EXT, doc_stats = docext.load(ir.REPO)
     prog = ir.Program(config)
     LAST_PROG[config] = prog
     types = _types(prog)
@@ -245,7 +277,12 @@ def check_fixed_extent(res, config, floor):
         inside += ni
         undecided += nu
         for (line, text), (v, d) in sorted(r.items()):
-            if v == "violation":
+            if v == "violation" and isinstance(d[1], str):
+                obj, size, lo, hi = d
+                res.violation(RULE, function=f.name, file=f.relfile, line=line, construct="%s in %s" % (text, obj.split(":", 1)[1]),
+                              detail="[%s] the header documents the buffer as %s; the tests made on this path bound the access only "
+                                     "up to %s octet(s) beyond it" % (config, size, hi))
+            elif v == "violation":
                 obj, size, lo, hi = d
                 res.violation(RULE, function=f.name, file=f.relfile, line=line, construct="%s in %s" % (text, obj.split(":", 1)[1]),
                               detail="[%s] the array has %d octets; the access may touch octets %s..%s of it (the bounds "
